@@ -77,6 +77,24 @@ fn c20_histogram_opts_arms() {
     core::mem::forget((h1, ex, h2, h3));
 }
 
+//@ id: c20_register_histogram_arms_forward
+//@ prop: C20
+//@ tier: quick
+//@ strength: bounded(enumerated: register_histogram!(n,h) and (n,h,buckets) with a trailing comma, concrete arguments; the TERMINAL arm -- Histogram::with_opts + register -- is replaced by a contract stand-in that returns the options reaching it and is not decided)
+//@ fn: macros::register_histogram
+//@ obligation: the (name, help) and (name, help, buckets) arms of register_histogram! forward exactly histogram_opts!(name, help) resp. histogram_opts!(name, help, buckets) to the terminal arm: name, help and the given buckets arrive, nothing is dropped or defaulted
+#[kani::proof]
+#[kani::unwind(14)]
+fn c20_register_histogram_arms_forward() {
+    let ex = HistogramOpts::new("n", "h");
+    let a: HistogramOpts = register_histogram!("n", "h").unwrap();
+    assert!(a.common_opts.name == "n" && a.common_opts.help == "h" && a.buckets.len() == ex.buckets.len(), "C20.register_histogram!(name, help) does not forward histogram_opts!(name, help)");
+    let b: HistogramOpts = register_histogram!("n", "h", vec![1.0, 2.5],).unwrap();
+    assert!(b.common_opts.name == "n" && b.common_opts.help == "h", "C20.register_histogram!(name, help, buckets) does not forward name and help");
+    assert!(b.buckets.len() == 2 && b.buckets[0] == 1.0 && b.buckets[1] == 2.5, "C20.register_histogram!(name, help, buckets) does not forward exactly the given buckets");
+    core::mem::forget((ex, a, b));
+}
+
 // (tier off, measured: expanding a registration arm -- Counter::with_opts + Registry::register on the
 // real GenericCounter collector + unregister -- runs out of memory / time under CBMC (586 s crash,
 // 1337 s); the registration arms of C20 are therefore NOT decided)
